@@ -106,8 +106,13 @@ impl<B: RingBuf<Item = Tag>> Sut for RingSut<B> {
         }
     }
 
-    fn extras(&self, _view: &Value) -> Map<String, Value> {
-        Map::new()
+    fn extras(&self, view: &Value) -> Map<String, Value> {
+        // ArrayBuf: the raw indices, for the relation RingIdx.tla proves for every capacity
+        let mut m = Map::new();
+        if view.get("send").is_some() && view["dead"] == false {
+            m.insert("idx".into(), json!({"size": view["size"], "recv": view["recv"], "send": view["send"]}));
+        }
+        m
     }
 
     fn wake_inlock(&self, _e: &Value) -> bool {
